@@ -248,7 +248,9 @@ structure Parsed where
   outs : List OutTx
   intras : List IntraTx
 
-def parseSheet (cfg : Config) (asset : String) (acct : String → String → Nat) (rows : List (List Cell)) : Except PErr Parsed :=
+/-- `artBase`: number of artificial transactions created so far in this run (the id counter lives in the configuration object
+    and is shared by all assets) -/
+def parseSheet (cfg : Config) (asset : String) (acct : String → String → Nat) (rows : List (List Cell)) (artBase : Nat := 0) : Except PErr Parsed :=
   match parseRows cfg asset acct 0 {} rows with
   | .error e => .error e
   | .ok st =>
@@ -259,7 +261,7 @@ def parseSheet (cfg : Config) (asset : String) (acct : String → String → Nat
       -- crypto fee split: artificial fee-only out-transactions, ids -1, -2, ... appended after the real ones
       let feeIns := ins.filter (fun p => decide (0 < p.cryptoFee))
       let arts : List OutTx := (List.range feeIns.length).zip feeIns |>.map fun (k, p) =>
-        mkOut (-(k + 1 : Nat)) p.tx.ts p.tx.acct .fee p.tx.price 0 p.cryptoFee none none none
+        mkOut (-(artBase + k + 1 : Nat)) p.tx.ts p.tx.acct .fee p.tx.price 0 p.cryptoFee none none none
       .ok { ins := ins.map (·.tx), outs := st.outs.reverse ++ arts, intras := st.intras.reverse }
 
 end Rp2
